@@ -109,12 +109,12 @@ def _ints(s):
 def parse_event(line):
     f = line.split(" ")
     if f[1] == "call":
-        return {"e": "call", "t": int(f[2]), "op": f[3], "a": _clamp(f[4]), "b": _clamp(f[5])}
+        return ["call", int(f[2]), f[3], _clamp(f[4]), _clamp(f[5])]
     if f[1] == "ret":
-        return {"e": "ret", "t": int(f[2]), "r": _clamp(f[3])}
+        return ["ret", int(f[2]), _clamp(f[3])]
     if f[1] == "st":
-        return {"e": "st", "par": _ints(f[2]), "rk": _ints(f[3])}
-    return {"e": "final", "par": _ints(f[2])}
+        return ["st", _ints(f[2]), _ints(f[3])]
+    return ["final", _ints(f[2])]
 
 def _run_slice(drv, jobs, base):
     """runs a slice of jobs in one driver process (restarting after a livelock / crash); returns executions"""
@@ -263,9 +263,9 @@ def dump_graph(wd, cfgfam, sfx):
         return None, r
     return graphwalk.Graph(dot), r
 
-def replay_variant(res, wd, drv, fam, v, sfx, max_walks):
+def replay_variant(res, wd, drv, fam, v, sfx, max_walks, dumped):
     """returns (executions, drift count, walks, steps compared, first drift descriptions)"""
-    g, r = dump_graph(wd, fam, sfx)
+    g, r = dumped.result()
     tick("R %s: graph dumped" % v)
     if g is None:
         res.infra_errors.append("graph dump failed for %s/%s: %s" % (fam, v, r["violated"] or r["error"]))
@@ -302,22 +302,29 @@ def replay_variant(res, wd, drv, fam, v, sfx, max_walks):
     return execs, drift, len(walks), steps, first
 
 # ------------------------------------------------------------------------------------------------ T: trace validation
-def validate_histories(res, wd, execs, batch_events=30000):
+def validate_histories(res, wd, execs, batch_events=12000, cap=None):
     """TLC judges every distinct history; returns {exec index: rejection record}"""
     uniq = {}
     for i, e in enumerate(execs):
         if e["V"] and not e["crash"]:
             uniq.setdefault("\n".join(e["V"]), []).append(i)
     hists = list(uniq.items())
+    if cap and len(hists) > cap:
+        # keep every history of a replayed walk / counterexample / reproduction, sample the random and DFS ones
+        keep = [h for h in hists if any(not execs[i].get("src", "").startswith(("random", "dfs")) for i in h[1])]
+        rest = [h for h in hists if not any(not execs[i].get("src", "").startswith(("random", "dfs")) for i in h[1])]
+        random.Random(seed() * 13 + 5).shuffle(rest)
+        hists = keep + rest[:max(0, cap - len(keep))]
+        res.cov["distinct_histories_not_validated"] = len(uniq) - len(hists)
     batches = []; cur = []; cur_ids = []
     for uid, (txt, idx) in enumerate(hists):
-        cur.append({"e": "reset", "job": uid})
+        cur.append(["reset", uid])
         cur += [parse_event(l) for l in txt.split("\n")]
         cur_ids.append(uid)
         if len(cur) >= batch_events:
-            batches.append((cur + [{"e": "end"}], cur_ids)); cur = []; cur_ids = []
+            batches.append((cur + [["end"]], cur_ids)); cur = []; cur_ids = []
     if cur:
-        batches.append((cur + [{"e": "end"}], cur_ids))
+        batches.append((cur + [["end"]], cur_ids))
     def one(b):
         k, (events, ids) = b
         return tracecheck.validate("UnionFindAbsTrace", events, wd, "MCT_UF_%d" % k, constants=TRACE_CONST, heap="3g", timeout=1500)
@@ -326,10 +333,12 @@ def validate_histories(res, wd, execs, batch_events=30000):
         outs = list(ex.map(one, enumerate(batches)))
     rejected = {}
     nev = 0
+    res.count("executions_validated", sum(len(h[1]) for h in hists))
     for (events, ids), (acc, consumed, r) in zip(batches, outs):
         nev += len(events)
-        recs = [x for j in r["json"] if isinstance(j, dict) and "rejected" in j for x in j["rejected"]]
-        if not acc or not any(isinstance(j, dict) and "rejected" in j for j in r["json"]):
+        recs = list({(j["job"], j["at"]): j for j in r["json"] if isinstance(j, dict) and "job" in j}.values())
+        done = [j for j in r["json"] if isinstance(j, dict) and "done" in j]
+        if not acc or not done or done[0]["done"] != len(recs):
             res.infra_errors.append("trace validation did not run to the end: %s" % ((r["error"] or str(r["violated"]))[-600:]))
             continue
         res.add_tlc(r)
@@ -339,8 +348,8 @@ def validate_histories(res, wd, execs, batch_events=30000):
         # position of the rejected event inside its history
         pos = {}
         for k, ev in enumerate(events):
-            if ev["e"] == "reset":
-                pos[ev["job"]] = k
+            if ev[0] == "reset":
+                pos[ev[1]] = k
         for x in recs:
             x["index"] = x["at"] - 1 - pos[x["job"]] - 1      # 0-based index into the history's V lines
     res.count("trace_events", nev); res.count("distinct_histories", len(hists))
@@ -358,9 +367,9 @@ def _save(wd, name, lines):
         f.write("\n".join(lines) + "\n")
     return path
 
-def judge(res, wd, drv, execs, kf, label):
-    """validate the executions' histories; classify rejections; returns (number rejected as known finding, violations)"""
-    rejected = validate_histories(res, wd, execs)
+def judge(res, wd, drv, execs, kf, label, cap=None):
+    """validate the executions' histories; classify rejections; returns (known-finding hits, violations, rejections)"""
+    rejected = validate_histories(res, wd, execs, cap=cap)
     nk = 0; nv = 0
     for i, e in enumerate(execs):
         bad = None
@@ -383,9 +392,9 @@ def judge(res, wd, drv, execs, kf, label):
             if nv <= 5:
                 path = _save(wd, "rejected_%s_%d" % (label, i), [explicit(e) if e["X"] else e["line"]])
                 res.violations.append((bad, path))
-    res.cov["traces_validated_against_impl"] += len(execs)
+    res.cov["traces_validated_against_impl"] += res.cov.get("executions_validated", 0)
     res.count("known_finding_hits", nk)
-    return nk, nv
+    return nk, nv, rejected
 
 # ------------------------------------------------------------------------------------------------ entry
 def replay_file(drv, path, wd):
@@ -414,14 +423,24 @@ def run(tier, replay_path=None):
     kf = known.load()
     quick = tier == "quick"
     # S and R/T are independent: model-check in the background while the real object is exercised
-    pool = cf.ThreadPoolExecutor(max_workers=2)
+    pool = cf.ThreadPoolExecutor(max_workers=6)
+    fam = "replayq" if quick else "replayt"
+    dumps = {v: pool.submit(dump_graph, wd, fam, sfx) for v, sfx in VARIANTS}
     fut_S = pool.submit(run_S, res, wd, tier)
     fut_abs = pool.submit(run_abs, res, wd)
+    # real executions that need no spec: reproduction of the finding, seeded random, bounded DFS
+    extra = []
+    rep = os.path.join(FINDING_DIR, "job.txt")
+    if os.path.exists(rep):
+        extra += [(l.strip(), "finding") for l in open(rep) if l.strip() and not l.startswith("#")]
+    rng = random.Random(seed() * 1000003 + 29)
+    extra += [(j, "random") for j in random_jobs(rng, 20000 if quick else 400000)]
+    extra += [(j, "dfs") for j in dfs_jobs(tier)]
+    fut_extra = pool.submit(run_driver, drv, [j for j, _ in extra])
     # R: which variant does the real object follow?
-    fam = "replayq" if quick else "replayt"
     all_execs = []; conform = {}; labels = []
     for v, sfx in VARIANTS:
-        execs, drift, nwalks, steps, first = replay_variant(res, wd, drv, fam, v, sfx, None if quick else 60000)
+        execs, drift, nwalks, steps, first = replay_variant(res, wd, drv, fam, v, sfx, None if quick else 60000, dumps[v])
         tick("R %s: %d walks, %d drift, %d steps" % (v, nwalks, drift or 0, steps))
         conform[v] = drift == 0 and nwalks > 0
         res.count("walks_replayed_" + v, nwalks); res.count("steps_compared_" + v, steps); res.count("drift_walks_" + v, drift or 0)
@@ -442,17 +461,8 @@ def run(tier, replay_path=None):
                       % (v, drift, nwalks, d), flush=True)
     else:
         res.infra_errors.append("the replay space does not discriminate the two variants of UnionFindImpl")
-    # more real executions: reproduction of the finding, seeded random, bounded DFS
-    extra = []
-    rep = os.path.join(FINDING_DIR, "job.txt")
-    if os.path.exists(rep):
-        extra += [(l.strip(), "finding") for l in open(rep) if l.strip() and not l.startswith("#")]
-    rng = random.Random(seed() * 1000003 + 29)
-    extra += [(j, "random") for j in random_jobs(rng, 3000 if quick else 60000)]
-    extra += [(j, "dfs") for j in dfs_jobs(tier)]
-    tick("driver: %d random/dfs jobs" % len(extra))
-    ex2 = run_driver(drv, [j for j, _ in extra])
-    tick("driver done: %d executions" % len(ex2))
+    ex2 = fut_extra.result()
+    tick("driver done: %d random / DFS executions" % len(ex2))
     for e in ex2:
         e["src"] = extra[e["job"]][1]
     all_execs += ex2
@@ -476,14 +486,18 @@ def run(tier, replay_path=None):
     res.cov["spec_results"] = {v: {"families_clean": [f[0] for f in S[v]["ok"]], "violated": [(f[0], f[1]) for f in S[v]["violated"]],
                                    "distinct_states": S[v]["states"]} for v, _ in VARIANTS}
     # T: the verdict
-    nk, nv = judge(res, wd, drv, all_execs, kf, "t")
+    nk, nv, rejected = judge(res, wd, drv, all_execs, kf, "t", cap=8000 if quick else 150000)
     tick("T done: %d executions, %d known-finding hits, %d violations" % (len(all_execs), nk, nv))
     # a counterexample of the variant the code follows must be reproduced by the code (else the spec misrepresents it)
     base = len(all_execs) - len(ex3)
-    for e in ex3:
+    for k, e in enumerate(ex3):
         c = cex_jobs[e["job"]]
         if c[1] in follows and not e["err"]:
-            res.sample({"TLC counterexample of the variant /repo follows": c[0], "spec invariant": c[3], "tlc trace": c[4]})
+            res.sample({"TLC counterexample of the variant /repo follows": c[0], "spec invariant": c[3], "tlc trace": c[4],
+                        "real object": "history rejected" if base + k in rejected else "history accepted"})
+            if base + k not in rejected and c[3] in ("Acyclic", "FinalPartition"):
+                res.infra_errors.append("spec-only failure: TLC finds %s violated by the variant the real object follows, but the real object's "
+                                        "history under that schedule is accepted (job `%s`)" % (c[3], c[0]))
     if all_execs:
         ok = [e for e in all_execs if e["src"] == "random" and e["V"]]
         if ok:
